@@ -180,7 +180,8 @@ theorem no_failure_all_succeed (n t : Nat) (sch : List (Nat × Choice))
   have hto : (run (init n t) sch).timeout = t := by rw [run_timeout]; rfl
   refine ⟨?_, ?_, ?_⟩
   · intro hs
-    exact terminal_of_sched (init n t) sch j p (by simpa [init] using hs) hp
+    have hnr : noRetry sch j := fun x hx _ => by rw [hnf x hx]; simp
+    exact terminal_of_sched (init n t) sch j p hnr (by simpa [init] using hs) hp
   · intro hterm
     have hcl := hn.clean j p hp
     obtain ⟨pc, g, saved, polls⟩ := p
